@@ -7,9 +7,9 @@ set -u
 export GOFLAGS=-mod=mod GOPROXY=off GOSUMDB=off
 P=$1; V=$2; DEMO=$3; DEST=$4; RUN=$5; shift 5
 CHECKS=${@:-$P}
-SRC=/tmp/seeded_out/$P/$V
+SRC=${SEEDROOT:-/tmp/seeded_out}/$P/$V
 WT=/tmp/wtv_${P}_$V
-OUT=/tmp/seeded_out/$P/$V/confirm.log
+OUT=${SEEDROOT:-/tmp/seeded_out}/$P/$V/confirm.log
 : > $OUT
 git -C /repo worktree add -q --detach $WT HEAD >>$OUT 2>&1 || { echo "$P/$V worktree failed"; exit 1; }
 cleanup() { git -C /repo worktree remove --force $WT >/dev/null 2>&1; }
